@@ -57,6 +57,13 @@ def _base_configs():
     # elastic strain energy (constant per precipitate volume): taken off the driving force once, in the binary and in the multicomponent path
     c.append(dict(tag="binary-strain-energy", phases=[dict(ph, strainE=3e7)], D=1e-16, calls=[(100.0, 0.02)], iter="euler"))
     c.append(dict(tag="multi-strain-energy", multi=True, phases=[dict(ph, strainE=3e7)], calls=[(0.6, 0.02), (0.6, 0.02)], iter="euler"))
+    # age to a few per cent of precipitate, then heat mildly above the solvus (every class dissolves, the planar interface stays stable): the
+    # dissolution re-mesh of the size classes must not create particles
+    c.append(dict(tag="age-then-mild-heat-dissolving", phases=[ph], D=1e-15, se=3e-3, retemp=[1000, 1008], calls=[(0.3, 0.05), (0.02, 0.02)], iter="euler", cap=800))
+    # a minimum step fraction that is not negligible: the last step of a call may be shorter than it, the run still ends exactly on time
+    c.append(dict(tag="min-step-fraction-0.1", phases=[ph], D=1e-16, minfrac=0.1, calls=[(50.0, 0.5)], iter="rk4"))
+    c.append(dict(tag="min-step-fraction-0.3-euler", phases=[ph], D=1e-16, minfrac=0.3, calls=[(50.0, 0.5)], iter="euler"))
+    c.append(dict(tag="min-step-fraction-two-calls", phases=[ph], D=1e-16, minfrac=0.05, calls=[(20.0, 0.2), (30.0, 0.2)], iter="euler"))
     # instantaneous quench: a break point time given twice, schedule supplied through the model's setter
     c.append(dict(tag="quench-step-down-setter", phases=[ph], D=1e-16, se=1e-5, temp=("array", [0, H(4.0), H(4.0), H(10.0)], [1010, 1010, 1000, 1000]),
                   calls=[(10.0, 0.02)], iter="euler", constraints=dict(maxNonIsothermalDT=20)))
